@@ -69,6 +69,33 @@ def closure(cls, roots):
     return seen
 
 
+def delivery_thread_survives(repo, rep, rule):
+    """no exception escapes from _deliver_indication_to_callbacks (other
+    than through the guarded callback call): an exception there skips
+    task_done() and ends the single callback thread, so that every later
+    indication is acknowledged by the HTTP side but never delivered
+    (C16.R5; also C17: one request must not prevent later valid
+    indications from being delivered)"""
+    lis = repo.cls(LS, 'WBEMListener')
+    deliver = lis.methods.get('_deliver_indication_to_callbacks')
+    run_cb = lis.methods.get('_callback_run')
+    if deliver is None or run_cb is None:
+        raise AnalysisError('WBEMListener delivery methods vanished')
+    ea = EscapeAnalysis(repo, Resolver(repo))
+    ea.solve([deliver, run_cb])
+    leaks = [e for e in ea.summ.get(deliver.fq, {}).values()
+             if e.kind != 'assert']
+    rule.sites += 1
+    rule.functions.add(deliver.fq)
+    rule.ob(not leaks, 'deliver-escape-set',
+            {'may_escape': [repr(e) for e in leaks]})
+    for e in leaks:
+        rep.finding(rule, e.func, e.construct, e.exc, e.file, e.line,
+                    '%s can escape from _deliver_indication_to_callbacks: '
+                    'task_done() is skipped and the delivery thread ends'
+                    % e.exc)
+
+
 def run(repo, rep, tier):
     r1 = rep.rule('C16.R1', 'thread roots and shared fields')
     r2 = rep.rule('C16.R2', 'release after join')
@@ -477,17 +504,7 @@ def run(repo, rep, tier):
                         'same bound method passed twice is registered twice '
                         'and receives every indication twice' % pcb)
     # nothing escapes between get and task_done
-    ea = EscapeAnalysis(repo, Resolver(repo))
-    ea.solve([deliver, run_cb])
-    leaks = [e for e in ea.summ.get(deliver.fq, {}).values()
-             if e.kind != 'assert']
-    r5.ob(not leaks, 'deliver-escape-set',
-          {'may_escape': [repr(e) for e in leaks]})
-    for e in leaks:
-        rep.finding(r5, e.func, e.construct, e.exc, e.file, e.line,
-                    '%s can escape from _deliver_indication_to_callbacks: '
-                    'task_done() is skipped and the delivery thread ends'
-                    % e.exc)
+    delivery_thread_survives(repo, rep, r5)
     # consumer loop: every item taken from the queue is delivered and then
     # marked done before the next item is taken or the loop is left (on
     # the normal-flow edges of the CFG).
